@@ -3,7 +3,7 @@
    of the configuration the result carries; Arith.get_sizing for the sizing policies;
    Arith.unary_raw for - + abs. *)
 From Coq Require Import ZArith List Bool.
-From FxpVerif Require Import Spec SpecArith NP Store ProofsCore ProofsStore Arith ProofsArith ProofsImposed.
+From FxpVerif Require Import Spec SpecArith NP Store ProofsCore ProofsStore Arith ProofsArith ProofsImposed ProofsRawImposed.
 Import ListNotations.
 Open Scope Z_scope.
 
@@ -19,6 +19,29 @@ Theorem C08_imposed_repr : forall op fx fy cxs cys ft r o,
           w_unf := existsb (unf_cond ft r) exact; w_inacc := existsb (inacc_cond ft r o) exact |}.
 Proof. exact imposed_repr. Qed.
 Print Assumptions C08_imposed_repr.
+
+(* integer-code ('raw', the default) method: the raw function rescales the operand codes to the
+   imposed fraction length (by a float factor when it shrinks), NumPy combines them in the
+   dtype its promotion rules give (int64, uint64 or float64), set_val(raw=True) rounds and
+   overflows: same operands, same imposed formats, same modes, arrays of any positive
+   length — again exactly the Spec's quantization of the exact result, all four fields *)
+Theorem C08_imposed_raw : forall op fx fy cxs cys ft r o,
+  small_op fx -> small_op fy -> small_tgt ft -> length cxs = length cys -> cxs <> [] ->
+  Forall (in_range fx) cxs -> Forall (in_range fy) cys ->
+  let exact := map (fun p => exact_op op (val_of_code fx (fst p)) (val_of_code fy (snd p))) (combine cxs cys) in
+  arith_raw op fx cxs fy cys ft r o
+  = Ok {| w_codes := map (quantize ft r o) exact; w_ovf := existsb (ovf_cond ft r) exact;
+          w_unf := existsb (unf_cond ft r) exact; w_inacc := existsb (inacc_cond ft r o) exact |}.
+Proof. exact imposed_raw. Qed.
+Print Assumptions C08_imposed_raw.
+
+(* hence both methods agree *)
+Theorem C08_methods_agree : forall op fx fy cxs cys ft r o,
+  small_op fx -> small_op fy -> small_tgt ft -> length cxs = length cys -> cxs <> [] ->
+  Forall (in_range fx) cxs -> Forall (in_range fy) cys ->
+  arith_raw op fx cxs fy cys ft r o = arith_repr op fx cxs fy cys ft r o.
+Proof. exact raw_repr_agree. Qed.
+Print Assumptions C08_methods_agree.
 
 (* the formats produced by the sizing policies same / largest / smallest / optimal are
    covered by the theorem above *)
